@@ -106,7 +106,14 @@ def check_module(ctx, idx, seed, cli=False):
     rng = random.Random(seed)
     layout = rng.choice(['google', 'freeform'])
     style = rng.choice([layout, 'auto'])
-    om = gm.outcome_module(rng, '%dx%d' % (ctx.seed, idx), layout=layout)
+    # directed mixes, so that the particular tallies do not depend on luck: every fourth module has no failing
+    # doctest, every sixteenth only skipped ones
+    kinds = None
+    if idx % 16 == 1:
+        kinds = [k for k, v in gm.OUTCOMES.items() if v[1] == 'skipped']
+    elif idx % 4 == 0:
+        kinds = [k for k, v in gm.OUTCOMES.items() if v[1] != 'failed']
+    om = gm.outcome_module(rng, '%dx%d' % (ctx.seed, idx), layout=layout, kinds=kinds)
     modname = 'tm_%d_%d_%d_zz' % (ctx.seed, ctx.shard, idx)
     path = os.path.join(ctx.tmp, modname + '.py')
     markfile = os.path.join(ctx.tmp, modname + '.marks')
